@@ -11,6 +11,7 @@ mod c17;
 mod alloc;
 mod c04;
 mod c15;
+mod api;
 mod c03;
 mod routes;
 mod routes_gen;
